@@ -48,7 +48,7 @@ CHECKS.update({
 
 CHECKS.update({
     "C12": ("exploration", "runtime monitoring: regular-language monitor over the client event stream + loop-death and stop-at-quiescence rules, on a transliterated driver loop around the real client implementation",
-            "DESIGN.md 4/C12", "Seeded start/stop/close/publish requests at every point of seeded transport histories; event stream, loop death and stop-never-stops are judged at quiescence of the finite script.", "the simulator loop is a transliteration of the two drivers' loops; corroborated on the real drivers (C13 harness)"),
+            "DESIGN.md 4/C12", "Seeded start/stop/close/publish requests at every point of seeded transport histories; event stream, loop death and stop-never-stops are judged at quiescence of the finite script.", "the simulator loop is a transliteration of the two drivers' loops; corroborated on the real threaded client and on the real tokio client (current-thread runtime)"),
     "C19": ("exploration", "runtime monitoring: back-off waits of the real client implementation against the closed form, lifetime histories with bracketed clock readings",
             "DESIGN.md 4/C19", "Waits compared with min(base'*2^k, max'); reset rule judged only on samples whose lifetime bracket lies entirely on one side of the stability period.", "Instant::now() inside the implementation is bracketed, not controlled"),
     "C20": ("exploration", "runtime monitoring: independent query-string parser / percent-decoder and field-by-field comparison over the options the AWS builder hands on",
@@ -56,7 +56,7 @@ CHECKS.update({
 })
 
 CHECKS.update({
-    "C13": ("exploration", "runtime monitoring: the real tokio and threaded clients (public API) and the websocket stream wrapper on scripted in-memory transports; byte-stream equality via the reference decoder, one-result-per-operation at provable loop exit",
+    "C13": ("exploration", "runtime monitoring: the real tokio and threaded clients (public API; the threaded one also over the websocket stream wrapper) and the wrapper alone on scripted in-memory transports; byte-stream equality via the reference decoder, one-result-per-operation (receiver / future / callback / synchronous error) at provable loop exit; Miri schedules of the blocking API in the thorough tier",
             "DESIGN.md 4/C13", "Real drivers under partial writes, would-block, read fragmentation, EOF/errors, refused connections and stop/close races; the websocket wrapper under arbitrary frame sizes and arrival patterns.", "wall clock only as watchdog; 'never resolves' is judged once a probe submit proves the event loop is gone"),
 })
 
